@@ -296,7 +296,7 @@ class Lin:
             return self.target_cell(lhs["e"], env)
         return None
 
-    def store(self, lhs, val, env, op=None):
+    def store(self, lhs, val, env, op=None, rhs=None):
         cell = self.target_cell(lhs, env)
         v = scalar(self.read(val))
         l0 = strip(lhs)
@@ -304,7 +304,7 @@ class Lin:
             fr = self.frames[-1]
             self.adjoint_bodies.add(fr["body"])
             self.adjoint_stores.append({"body": fr["body"], "kind": fr["kind"], "loops": list(fr["loops"]), "outer": fr["outer"],
-                                        "lhs": l0, "op": op, "enclosing": [f["body"] for f in self.frames]})
+                                        "lhs": l0, "op": op, "rhs": rhs, "enclosing": [f["body"] for f in self.frames]})
         if cell is None:
             self.note("store to an untracked place: %s" % show(lhs)[:80])
             return
@@ -491,7 +491,7 @@ class Lin:
             m = self.matches(e["pat"], t)
             return T(C, const=m)
         if k == "Assign":
-            self.store(e["l"], self.ev(e["r"], env), env)
+            self.store(e["l"], self.ev(e["r"], env), env, rhs=e["r"])
             return tC
         if k == "AssignOp":
             self.store(e["l"], self.ev(e["r"], env), env, op=e["op"].replace("Assign", "").replace("Unchecked", "") if isinstance(e["op"], str) else None)
